@@ -23,9 +23,33 @@ class Finding:
     detail: Dict[str, Any] = field(default_factory=dict)
 
 
+CURRENT = [None]     # the Result being built (so that findings made before an AnalysisError are not lost)
+
+
+def run_property(prop_id, index, tier="quick", seed=0):
+    """run one property's check.  An AnalysisError raised after violations were already established does not discard
+    them: the violations are reported (exit 1) and the part that could not be analysed is recorded as a note."""
+    import importlib
+    from .index import AnalysisError
+    mod = importlib.import_module(f"cxa.props.{prop_id.lower()}")
+    CURRENT[0] = None
+    try:
+        return mod.run(index, tier=tier, seed=seed)
+    except AnalysisError as e:
+        cur = CURRENT[0]
+        if cur is not None and cur.prop_id == prop_id and cur.findings:
+            cur.not_in_fragment.append(f"analysis stopped early: {e}")
+            cur.incomplete = str(e)      # callers: violations (if any beyond the known findings) are reported, else exit 2
+            return cur
+        raise
+
+
 class Result:
-    def __init__(self, prop_id, explanation):
+    def __init__(self, prop_id, explanation, register=True):
+        if register:
+            CURRENT[0] = self
         self.prop_id = prop_id
+        self.incomplete = None
         self.explanation = explanation
         self.findings: List[Finding] = []
         self._keys = set()
